@@ -12,7 +12,7 @@ from ..core import Prop
 from .. import celrun
 from .c11_util import (US_S, US_DAY, MAX_LOC, MAX_DUR, MAX_DUR_S, EPOCH_US, fields_of_loc, loc_of_fields, is_leap,
                        make_ts, make_dur, ts_text, ts_lit, off_text, canon_time, run_cel, enc, cel_str,
-                       expect_from_model, interp_catches)
+                       expect_from_model, interp_catches, spec_duration_us)
 
 I_MIN, I_MAX, U_MAX = -2**63, 2**63 - 1, 2**64 - 1
 MIN15 = 15 * 60 * US_S
@@ -155,6 +155,7 @@ class C10(Prop):
         def via():
             return rng.choice(VIAS)
 
+        cases += self._seq_cases(rng, quick)        # first: they must not inherit state from the single cases
         ints = [v for v in int_boundary(quick) if -2**65 <= v <= 2**65]
         i64 = [v for v in ints if I_MIN <= v <= I_MAX] + [rng.randint(I_MIN, I_MAX) for _ in range(150 if quick else 3000)]
         u64 = [v for v in ints if 0 <= v <= U_MAX] + [rng.randint(0, U_MAX) for _ in range(150 if quick else 3000)]
@@ -220,6 +221,14 @@ class C10(Prop):
             cases.append({"kind": "conv", "f": "uint", "src": "d", "v": b, "via": via()})
             if x == x:
                 cases.append({"kind": "rt", "rt": "double_string", "v": b, "via": via()})
+                if rng.random() < 0.5:
+                    cases.append({"kind": "conv", "f": "string", "src": "d", "v": b, "via": via()})
+        for _ in range(60 if quick else 1500):          # double(text) on plain decimal text
+            n = rng.choice([rng.randint(-10**6, 10**6), rng.randint(-2**70, 2**70), rng.randint(2**53 - 4, 2**53 + 4) * rng.choice([1, -1, 2, 4])])
+            t = dec_str(n)
+            if rng.random() < 0.5:
+                t += "." + "".join(rng.choice("0123456789") for _ in range(rng.randint(1, 20)))
+            cases.append({"kind": "conv", "f": "double", "src": "s", "v": t, "via": via()})
         # strings and bytes
         strs = list(GOOD_STRINGS)
         pools = [(0x20, 0x7e), (0xa0, 0x7ff), (0x800, 0xd7ff), (0xe000, 0xffff), (0x10000, 0x10ffff), (0, 0x1f)]
@@ -311,9 +320,151 @@ class C10(Prop):
         for d in durs:
             cases.append({"kind": "rt", "rt": "dur_string", "v": d, "via": via()})
             cases.append({"kind": "conv", "f": "string", "src": "dur", "v": d, "via": via()})
+            if d % US_S == 0 and rng.random() < 0.5:
+                cases.append({"kind": "conv", "f": "duration", "src": "s", "v": f"{d // US_S}s", "via": via()})
         for s in [0, 1, -1, MAX_DUR_S, MAX_DUR_S + 1, -MAX_DUR_S, -MAX_DUR_S - 1, 10**15, I_MAX, I_MIN]:
             cases.append({"kind": "conv", "f": "duration", "src": "i", "v": s, "via": via()})
         return cases
+
+    # ------------------------------------------------------------------------------------------
+    def _seq_cases(self, rng: random.Random, quick: bool) -> List[Dict[str, Any]]:
+        """Sequences of RELATED conversions evaluated in one process, in order: what a memo / cache / fast path
+        keyed too coarsely gets wrong.  Each cluster is built around one random base value and holds inputs that
+        a wrong key would confuse: the same text with the other sign / blanks / another spelling, equal values of
+        different types (1, 1u, 1.0, true hash alike; equal instants with different offsets), the same text sent to
+        different target types, an error outcome next to a success on a neighbouring input, the same input through
+        the constructor and both runners.  The steps are shuffled and the first ones are repeated at the end (a
+        memo poisoned by a later relative shows on the repeat).  The per-step oracle is the one of single cases."""
+        VIAS = ["direct", "I", "C", "Ivar", "Cvar"]
+        out: List[Dict[str, Any]] = []
+
+        def V():
+            return rng.choice(VIAS)
+
+        def conv(f, src, v, via=None):
+            return {"kind": "conv", "f": f, "src": src, "v": v, "via": via or V()}
+
+        def rt(name, v, via=None):
+            return {"kind": "rt", "rt": name, "v": v, "via": via or V()}
+
+        def finish(steps, threads=False):
+            steps = [st for st in steps if st is not None]
+            rng.shuffle(steps)
+            if len(steps) > 12:
+                steps = steps[:12]
+            k = min(len(steps), rng.choice([1, 2, 3]))
+            steps = steps + [dict(st, via=V()) if rng.random() < 0.5 else dict(st) for st in steps[:k]]
+            c = {"kind": "seq", "steps": steps}
+            if threads:
+                c["mode"] = "threads"
+            out.append(c)
+
+        reps = 1 if quick else 12
+        # (a) durations: both signs of one magnitude, several spellings of the same length of time
+        for i in range(10 * reps):
+            m = rng.choice([rng.randint(1, 120), 60 * rng.randint(1, 10**4), rng.randint(1, 10**6), rng.randint(1, MAX_DUR_S),
+                            rng.choice([30, 60, 90, 3600, 86400, MAX_DUR_S])])
+            steps = [rt("dur_string", m * US_S), rt("dur_string", -m * US_S), conv("string", "dur", m * US_S), conv("string", "dur", -m * US_S),
+                     conv("duration", "s", f"{m}s"), conv("duration", "s", f"-{m}s"), conv("duration", "i", m), conv("duration", "i", -m)]
+            extra = [f"0{m}s", f"{m}.0s", f"-{m}.000s"]
+            if m % 60 == 0:
+                extra += [f"{m // 60}m", f"-{m // 60}m", f"{m // 60 - 1}m60s"]
+            if m % 3600 == 0:
+                extra += [f"{m // 3600}h", f"-{m // 3600}h"]
+            if m * 1000 <= MAX_DUR_S:
+                extra += [f"{m}ms", f"-{m}ms", f"{m * 1000}ms"]
+            extra += [f"{m}", f"{m}x", f"--{m}s", f"{m} s"]                      # not duration texts
+            if m < MAX_DUR_S:
+                extra += [f"{m + 1}s", f"-{m + 1}s"]
+            steps += [conv("duration", "s", t) for t in rng.sample(extra, min(len(extra), 5))]
+            finish(steps, threads=(i % 5 == 4))
+        # (b) one integer, many texts, both integer targets (and double)
+        for i in range(10 * reps):
+            n = rng.choice([rng.randint(0, 1000), rng.randint(0, I_MAX), rng.randint(I_MAX - 3, I_MAX + 3), rng.randint(U_MAX - 3, U_MAX + 3),
+                            rng.randint(0, U_MAX), 10**rng.randint(1, 19) + rng.randint(-2, 2), 2**rng.randint(1, 64) + rng.randint(-2, 2)])
+            n = abs(n)
+            t = dec_str(n)
+            texts = [t, "-" + t, "+" + t, " " + t, t + " ", "0" + t, "-0" + t, hex(n), "-" + hex(n), hex(n).upper().replace("0X", "0X"),
+                     t + "u", t + ".0", "0x" + t, "-0x" + t]
+            if len(t) > 1:
+                texts.append(t[:1] + "_" + t[1:])
+            steps = []
+            for x in rng.sample(texts, 7):
+                steps.append(conv("int", "s", x))
+                steps.append(conv("uint", "s", x))
+            steps += [conv("double", "s", t), conv("double", "s", "-" + t)]
+            if n <= I_MAX:
+                steps += [rt("int_string", n), rt("int_string", -n), rt("string_int", t), rt("string_int", dec_str(-n)), conv("string", "i", -n)]
+            if n <= U_MAX:
+                steps += [rt("uint_string", n), conv("string", "u", n), conv("int", "u", n), rt("uint_int", n)]
+            finish(steps, threads=(i % 5 == 4))
+        # (c) equal values of different types (equal hash): n, nu, n.0, true/false
+        for i in range(8 * reps):
+            n = rng.choice([0, 1, 0, 1, 2, rng.randint(0, 255), rng.randint(0, 2**53), 2**rng.randint(1, 62), rng.randint(0, I_MAX)])
+            x = float(n)
+            steps = [conv("string", "i", n), conv("string", "u", n), conv("string", "d", bits(x)), conv("string", "d", bits(-x)),
+                     conv("int", "u", n), conv("uint", "i", n), conv("int", "i", n), conv("uint", "u", n), conv("uint", "i", -n), conv("int", "i", -n),
+                     conv("double", "i", n), conv("double", "u", n), conv("double", "i", -n), conv("int", "d", bits(x)), conv("uint", "d", bits(x)),
+                     conv("int", "d", bits(-x)), conv("uint", "d", bits(-x)), conv("int", "d", bits(x + 0.5)), conv("uint", "d", bits(-x - 0.5)),
+                     rt("int_string", n), rt("uint_string", n), rt("double_string", bits(x)), rt("double_string", bits(-x)),
+                     rt("int_double", n), rt("uint_double", n), rt("int_uint", n), rt("uint_int", n),
+                     conv("int", "s", dec_str(n)), conv("uint", "s", dec_str(n)), conv("double", "s", dec_str(n)), conv("bool", "s", dec_str(n))]
+            if n in (0, 1):
+                steps += [conv("string", "b", n, rng.choice(["I", "C"])), conv("bool", "s", "true" if n else "false")]
+            finish(steps, threads=(i % 4 == 3))
+        # (d) one instant seen from several offsets (equal, same hash, different text)
+        offs = [0, 0, 3600 * US_S, -3600 * US_S, 19800 * US_S, -(9 * 3600 + 1800) * US_S, 14 * 3600 * US_S, -12 * 3600 * US_S, 60 * US_S, -60 * US_S]
+        for i in range(8 * reps):
+            utc = rng.choice([rng.randint(0, MAX_LOC) // US_S * US_S, loc_of_fields(rng.randint(1, 9999), 1, 1),
+                              loc_of_fields(rng.randint(1, 9999), 12, 31, 23, 59, 59), loc_of_fields(rng.choice([999, 1000, 2000, 2024]), 2, 28, 23, 30)])
+            steps = []
+            for o in rng.sample(offs, 4):
+                l = utc + o
+                if not 0 <= l <= MAX_LOC:
+                    continue
+                steps += [rt("ts_string", [l, o]), conv("string", "t", [l, o]), conv("timestamp", "s", ts_text(l, o)), conv("int", "t", [l, o])]
+                if o == 0:
+                    steps.append(conv("timestamp", "s", ts_text(l, o)[:-1] + "+00:00"))
+            l2 = utc + rng.choice([US_S, -US_S, 60 * US_S, 3600 * US_S, US_DAY])          # a near neighbour, UTC
+            if 0 <= l2 <= MAX_LOC:
+                steps += [rt("ts_string", [l2, 0]), conv("timestamp", "s", ts_text(l2, 0))]
+            finish(steps, threads=(i % 4 == 3))
+        # (e) text and bytes with the same content; a damaged relative of a valid encoding
+        pools = [(0x20, 0x7e), (0xa0, 0x7ff), (0x800, 0xd7ff), (0xe000, 0xffff), (0x10000, 0x10ffff)]
+        for i in range(6 * reps):
+            w = "".join(chr(rng.randint(*rng.choice(pools))) for _ in range(rng.choice([1, 2, 4, 8])))
+            b = utf8_encode(w)
+            steps = [conv("bytes", "s", w), rt("string_bytes", w), conv("string", "y", b.hex(), rng.choice(["direct", "Ivar", "Cvar"])),
+                     rt("bytes_string", b.hex(), rng.choice(["direct", "Ivar", "Cvar"]))]
+            for _ in range(3):
+                d = bytearray(b)
+                k = rng.randrange(len(d))
+                if rng.random() < 0.5:
+                    d[k] ^= rng.choice([0x80, 0x40, 0x20, 0xff])
+                else:
+                    del d[k]
+                steps += [conv("string", "y", bytes(d).hex(), rng.choice(["direct", "Ivar", "Cvar"])),
+                          rt("bytes_string", bytes(d).hex(), rng.choice(["direct", "Ivar", "Cvar"]))]
+            w2 = w + "x" if rng.random() < 0.5 else w.swapcase() + w[:1]
+            steps += [conv("bytes", "s", w2), rt("string_bytes", w2)]
+            finish(steps, threads=(i % 3 == 2))
+        # (f) the edges of the two integer ranges, every route to them
+        for i in range(6 * reps):
+            e = rng.choice([2**63, 2**64, 0, -2**63, 10**19, 2**53, 10**18])
+            steps = []
+            for n in range(e - 2, e + 3):
+                if 0 <= n <= U_MAX:
+                    steps += [conv("int", "u", n), rt("uint_int", n), rt("uint_string", n), conv("string", "u", n)]
+                if I_MIN <= n <= I_MAX:
+                    steps += [conv("uint", "i", n), rt("int_uint", n), rt("int_string", n)]
+                steps += [conv("int", "s", dec_str(n)), conv("uint", "s", dec_str(n))]
+            for x in (float(e), math.nextafter(float(e), math.inf), math.nextafter(float(e), -math.inf)):
+                steps += [conv("int", "d", bits(x)), conv("uint", "d", bits(x))]
+            finish(steps, threads=(i % 3 == 2))
+        # (g) bool texts
+        for i in range(2 * reps):
+            finish([conv("bool", "s", t) for t in ["true", "True", "TRUE", "t", "false", "False", "FALSE", "f", "1", "0", "T", "tRuE", "yes", ""]])
+        return out
 
     # ------------------------------------------------------------------------------------------
     @staticmethod
@@ -358,7 +509,20 @@ class C10(Prop):
     CTOR = {"int": "IntType", "uint": "UintType", "double": "DoubleType", "string": "StringType", "bytes": "BytesType",
             "bool": "BoolType", "timestamp": "TimestampType", "duration": "DurationType"}
 
+    # ---- sequences: several related conversions in ONE process, in order (or on 4 threads) ---------
     def impl(self, c):
+        if c["kind"] != "seq":
+            return self._impl1(c)
+        steps = c["steps"]
+        if c.get("mode") == "threads":
+            from concurrent.futures import ThreadPoolExecutor
+            with ThreadPoolExecutor(max_workers=4) as ex:
+                outs = list(ex.map(self._impl1, steps))
+        else:
+            outs = [self._impl1(st) for st in steps]
+        return "seq " + json.dumps(outs)
+
+    def _impl1(self, c):
         from celpy import celtypes
         if c["kind"] == "conv":
             src, expr, fns = c["src"], c["f"] + "({x})", [c["f"]]
@@ -387,6 +551,8 @@ class C10(Prop):
 
     # ------------------------------------------------------------------------------------------
     def model_line(self, c):
+        if c["kind"] == "seq":
+            return None          # every step is also generated/evaluated alone against the model
         v = c["v"]
         if c["kind"] == "conv":
             f, src = c["f"], c["src"]
@@ -422,6 +588,8 @@ class C10(Prop):
                 return "ts s " + enc(v) if RFC_SHAPE.match(v) else None
             if f == "duration" and src == "i":
                 return f"dur i {v}"
+            if f == "duration" and src == "s":
+                return "dur s " + enc(v) if all(ord(ch) < 128 or ch == "µ" for ch in v) else None
             return None
         rt = c["rt"]
         if rt == "int_string":
@@ -473,6 +641,28 @@ class C10(Prop):
 
     # ------------------------------------------------------------------------------------------
     def oracle(self, c, out):
+        if c["kind"] != "seq":
+            return self._oracle1(c, out)
+        steps = c["steps"]
+        try:
+            outs = json.loads(out[4:]) if out.startswith("seq ") else None
+        except ValueError:
+            outs = None
+        if not isinstance(outs, list) or len(outs) != len(steps):
+            return f"sequence of {len(steps)} conversions: harness outcome {out[:200]}"
+        for i, (st, o) in enumerate(zip(steps, outs)):
+            msg = self._oracle1(st, o)
+            if msg:
+                before = "; ".join(self._show(x) for x in steps[:i]) or "nothing"
+                return f"step {i + 1} of {len(steps)} in one process ({c.get('mode', 'serial')}), after [{before}]: {msg}"
+        return None
+
+    def _show(self, st):
+        if st["kind"] == "conv":
+            return f"{st['f']}({st['src']}:{st['v']!r})@{st['via']}"
+        return f"{st['rt']}({st['v']!r})@{st['via']}"
+
+    def _oracle1(self, c, out):
         v = c["v"]
         isval = celrun.is_value(out) and not out.startswith("raise ") and out != "unrepresentable-input"
         def want(exp, what):
@@ -590,9 +780,44 @@ class C10(Prop):
             if not I_MIN <= v <= I_MAX:
                 return None
             return want(f"dur {v * US_S}", f"duration({v})") if abs(v) <= MAX_DUR_S else want_err(f"duration({v})")
+        if f == "duration" and src == "s":
+            # the text read exactly (own reader in c11_util); only exact whole-µs values are demanded here
+            # (rounding of finer text is C11's business)
+            val = spec_duration_us(v)
+            if val is None:
+                return want_err(f"duration({v!r}) (not a duration text)") if v.isascii() and not re.search(r"[0-9]", v) else None
+            if abs(val) > MAX_DUR:
+                return want_err(f"duration({v!r}) (beyond ±{MAX_DUR_S}s)")
+            return want(f"dur {int(val)}", f"duration({v!r})") if val.denominator == 1 else None
+        if f == "double" and src == "s":
+            # plain decimal text: the correctly rounded value of the exact rational (int/int true division)
+            if not re.fullmatch(r"[+-]?[0-9]{1,25}(\.[0-9]{1,25})?", v):
+                return None
+            fr = Fraction(v)
+            x = fr.numerator / fr.denominator
+            if v.startswith("-") and x == 0:
+                x = -0.0
+            return want(f"double:{bits(x)}", f"double({v!r})")
+        if f == "string" and src == "d":
+            # string(d) must denote d: its text, read exactly, rounds back to d (and keeps the sign of zero)
+            if v == "nan" or math.isinf(dbl(int(v))):
+                return None
+            x = dbl(int(v))
+            if not out.startswith("string:"):
+                return f"string({x!r}) via {c['via']}: expected text, got {out}"
+            t = json.loads(out[7:])
+            if not re.fullmatch(r"-?[0-9]+(\.[0-9]+)?(e[+-]?[0-9]+)?", t):
+                return f"string({x!r}) via {c['via']}: {t!r} is not a decimal floating-point text"
+            fr = Fraction(t)
+            y = fr.numerator / fr.denominator if abs(fr) < Fraction(2) ** 1024 else math.inf
+            if y != x or t.startswith("-") != (math.copysign(1.0, x) < 0):
+                return f"string({x!r}) via {c['via']}: the text {t!r} denotes {y!r}, not the source value"
+            return None
         return None
 
     def nontrivial(self, c, out):
+        if c["kind"] == "seq":
+            return True
         if not celrun.is_value(out) or out.startswith("raise"):
             return True
         if c["kind"] == "rt":
